@@ -3,6 +3,7 @@
 from __future__ import annotations
 
 import ast
+import re
 from typing import Dict, List, Optional, Tuple
 
 from ..hostir import HostInterp
@@ -55,6 +56,10 @@ def _increments(stmts, adr: str, mult: Tuple[str, ...], size: Dict[str, int]):
           raise AnalysisError(f"unsupported-construct nested adr increment at line {st.lineno}")
       elif isinstance(v, ast.Name) and not mult:
         _add(size, v.id, 1)
+      elif isinstance(v, ast.BinOp) and isinstance(v.op, ast.Mult) and not mult and {type(v.left), type(v.right)} == {ast.Constant, ast.Name}:
+        # hoisted form: `adr += 6 * nbody` after a loop that addresses `adr + 6 * j + c`
+        k, sym = (v.left.value, v.right.id) if isinstance(v.left, ast.Constant) else (v.right.value, v.left.id)
+        _add(size, sym, int(k))
       else:
         raise AnalysisError(f"unsupported-construct adr increment `{unparse(st)}` at line {st.lineno}")
     elif isinstance(st, ast.For):
@@ -135,13 +140,29 @@ def extract_layout(fi, state_param: str, helpers=None) -> Tuple[Dict[str, Branch
       b = Branch(mem)
       b.loc = node.lineno
       body = _inline_helpers(node.body, helpers or {})
+      # single-assignment address aliases inside the branch (`xfrcadr = adr + 6 * j`) are substituted into the offsets
+      import copy as _copy
+
+      alias, cnt_ = {}, {}
+      for sub in body:
+        for x in ast.walk(sub):
+          if isinstance(x, ast.Assign) and len(x.targets) == 1 and isinstance(x.targets[0], ast.Name):
+            cnt_[x.targets[0].id] = cnt_.get(x.targets[0].id, 0) + 1
+            alias[x.targets[0].id] = x.value
+      alias = {k: v for k, v in alias.items() if cnt_[k] == 1 and any(isinstance(y, ast.Name) and y.id == "adr" for y in ast.walk(v))}
+
+      class _Sub(ast.NodeTransformer):
+        def visit_Name(self, n):
+          return _copy.deepcopy(alias[n.id]) if n.id in alias else n
       for sub in body:
         for x in ast.walk(sub):
           if isinstance(x, ast.Subscript) and isinstance(x.value, ast.Name):
             nm = x.value.id
             if nm == state_param:
               idx = x.slice.elts[1] if isinstance(x.slice, ast.Tuple) and len(x.slice.elts) > 1 else None
-              b.offsets.append(unparse(idx) if idx is not None else "?")
+              if idx is not None and alias:
+                idx = _Sub().visit(_copy.deepcopy(idx))
+              b.offsets.append(unparse(idx).replace("(", "").replace(")", "") if idx is not None else "?")
             elif nm.endswith("_in") or nm.endswith("_out"):
               b.fields.add(nm.rsplit("_", 1)[0])
           if isinstance(x, ast.Call) and dotted(x.func) in ("float", "bool"):
@@ -263,7 +284,8 @@ def run(db, res, tier):
       got = _norm_size(_size_str(b.size))
       res.ob(got == _norm_size(size), cons + "|size", Finding("R-LAYOUT.3", f"support.{kind}_state|State.{mem}|size", f"{kind}_state advances the state address by {got} for State.{mem}; mj_stateSize uses {size}", f"{fi.file}:{b.loc}"), sample={"fn": f"{kind}_state", "element": mem, "fields": sorted(b.fields), "size": got, "oracle": size})
       for ext in getattr(b, "copy_extents", []):
-        res.ob(_norm_size(ext) == got, cons + "|copy-extent", Finding("R-LAYOUT.3", f"support.{kind}_state|State.{mem}|copy-extent", f"{kind}_state moves {ext} cells of State.{mem} but advances the state address by {got}: the element is truncated or overlaps the next one", f"{fi.file}:{b.loc}"))
+        ext_ok = _norm_size(ext) == got or bool(re.fullmatch(r"\d+\*" + re.escape(_norm_size(ext)), got))  # strided items: k cells per loop step
+        res.ob(ext_ok, cons + "|copy-extent", Finding("R-LAYOUT.3", f"support.{kind}_state|State.{mem}|copy-extent", f"{kind}_state moves {ext} cells of State.{mem} but advances the state address by {got}: the element is truncated or overlaps the next one", f"{fi.file}:{b.loc}"))
       res.ob(b.fields == {field}, cons + "|field", Finding("R-LAYOUT.4", f"support.{kind}_state|State.{mem}|field", f"{kind}_state moves {sorted(b.fields)} for State.{mem}; MuJoCo moves `{field}`", f"{fi.file}:{b.loc}"))
       # offsets used inside the branch are `adr + <loopvar>` or `adr + c` with c < per-item width
       width = [k for s, k in b.size.items()]
@@ -278,6 +300,13 @@ def run(db, res, tier):
           consts.add(int(o[4:]))
         elif o.startswith("adr+") and o[4:].isidentifier():
           pass
+        elif re.fullmatch(r"adr\+(\d+\*[A-Za-z_]\w*|[A-Za-z_]\w*\*\d+)(\+\d+)?", o):
+          # strided form `adr + 6 * j (+ c)`: the stride must be the per-item width, c the offset inside the item
+          m_ = re.fullmatch(r"adr\+(?:(\d+)\*[A-Za-z_]\w*|[A-Za-z_]\w*\*(\d+))(?:\+(\d+))?", o)
+          stride = int(m_.group(1) or m_.group(2))
+          if stride != per_item:
+            bad.append(off)
+          consts.add(int(m_.group(3) or 0))
         else:
           bad.append(off)
       if consts:
